@@ -1,30 +1,84 @@
-META = {"assumptions": [], "outside": []}
+META = {
+    "assumptions": [
+        "allocation failure out of scope (--no-malloc-may-fail)",
+        "library callees of the transfer kernels are specification stubs that record their arguments: ext2fs_read_inode/"
+        "ext2fs_write_inode/ext2fs_write_new_inode (inode I/O is C14/C17's subject), ext2fs_new_inode, ext2fs_link, "
+        "ext2fs_expand_dir, ext2fs_inode_alloc_stats2, ext2fs_file_llseek/ext2fs_file_write (C09's subject), "
+        "fchmod/chmod/fchown/chown/utime, pread64, time, gettext, com_err",
+        "pread64 returns min(count, size - offset) bytes (no short read in the middle of a regular file): copy_file_chunk "
+        "silently skips the rest of a 64 KiB round after a short read",
+        "host S_IF*/S_I* constants equal the LINUX_S_* values (asserted in file_type for this host), little-endian host",
+        "copy_file_chunk: block size 4 bytes, host file <= 12 bytes (fs->blocksize is a run-time field; COPY_FILE_BUFLEN "
+        "stays 65536, reached through the read count only)",
+    ],
+    "outside": [
+        "tree walking (__populate_fs, scandir order), hard-link detection by (dev, ino), path handling, libarchive input",
+        "extended attribute transfer (set_inode_xattr)", "symlink targets (do_symlink_internal -> ext2fs_symlink), mkdir",
+        "try_lseek_copy / try_fiemap_copy extent enumeration (SEEK_DATA/SEEK_HOLE, FIEMAP) and the i_size set by do_write_internal; "
+        "inline-data files",
+        "the real ext2fs_file_write / block allocation behind the copy (C09), directory entries (C10)",
+        "rdump_inode / rdump_dirent recursion, dump_file's read loop, rdump_symlink; only fix_perms is covered of extraction",
+        "consistency (e2fsck clean) and byte-for-byte reproducibility of the produced image",
+        "nanoseconds (never transferred by set_inode_extra: always zero) and i_crtime of populated files",
+    ],
+}
 MU = ["main.%d:161" % i for i in range(8)]
+
+
 def xt():
     c = []
-    for m in (1, 2):
+    for m in (1, 2, 3):
         for r in (1, 2):
             c.append({"MODE": m, "FIELD": 3, "RANGE": r})
-    for r in (1, 2):
-        c.append({"MODE": 3, "FIELD": 3, "RANGE": r})
+    # the other timestamp fields: widest range only
+    for f in (1, 2, 4):
+        c.append({"MODE": 1, "FIELD": f, "RANGE": 2})
+        c.append({"MODE": 2, "FIELD": f, "RANGE": 2})
+    for f in (1, 2):
+        c.append({"MODE": 3, "FIELD": f, "RANGE": 2})
     return c
+
+
+CC_UW = ["main.%d:14" % i for i in range(8)] + ["pread64.0:13", "pread64.1:13", "ext2fs_file_write.0:13",
+                                                "ext2fs_file_write.1:13"]
 HARNESSES = [
     dict(name="inode_extra", src="inode_extra.c", funcs=["set_inode_extra", "clamped_time"],
          configs=[{"IN_RANGE": None}, {}], unwind=4, unwindset=["main.%d:129" % i for i in range(8)],
-         backends=["default", "kissat"], bound="x"),
+         backends=["default", "kissat"],
+         bound="every st_mode/st_uid/st_gid (32 bit), every 128-byte pre-existing inode, every flags2/fs->now, read/write "
+               "error codes symbolic; times: [0, 2^31) (IN_RANGE) and every 64-bit value"),
     dict(name="file_type", src="mknod.c", funcs=["ext2_file_type"], configs=[{"KERNEL": 1}], unwind=4,
-         backends=["default", "kissat"], bound="x"),
+         backends=["default", "kissat"], bound="all 2^32 mode values"),
     dict(name="mknod", src="mknod.c", funcs=["do_mknod_internal"],
          configs=[{"KERNEL": 2}], unwind=4, unwindset=["main.%d:16" % i for i in range(8)],
-         backends=["default", "kissat"], bound="x"),
+         backends=["default", "kissat"],
+         bound="all 2^32 st_mode and st_rdev values (major 12 bit, minor 20 bit), parent/inode numbers symbolic, directory "
+               "full on the first link attempt or not, fs->now in [0, 2^31)"),
     dict(name="copy_chunk", src="copy_chunk.c", funcs=["copy_file_chunk"],
-         configs=[{"START": 0}, {"START": 4}, {"START": 1}, {"START": 0, "FAULTS": 1}, {"START": 0, "FAULTS": 2}, {"START": 0, "FAULTS": 3}, {"START": 0, "FAULTS": 4}, {"START": 0, "PARTIAL": None}], unwind=6, unwindset=["main.%d:14" % i for i in range(8)] + ["pread64.0:13", "pread64.1:13", "ext2fs_file_write.0:13", "ext2fs_file_write.1:13"],
-         backends=["default", "kissat"], bound="x"),
+         configs=[{"START": 0}, {"START": 4}, {"START": 1}, {"START": 0, "FAULTS": 1}, {"START": 0, "FAULTS": 2},
+                  {"START": 0, "FAULTS": 3}, {"START": 0, "FAULTS": 4}, {"START": 0, "PARTIAL": None}],
+         unwind=6, unwindset=CC_UW, backends=["default", "kissat"],
+         bound="block size 4, host file of 0..12 bytes with symbolic content, chunk start 0 / 4 / 1 (unaligned), any end < "
+               "start + 128 KiB (two buffer rounds), one fault class per query at a symbolic call number, partial writes of "
+               "1..4 bytes"),
     dict(name="fix_perms", src="fix_perms.c", funcs=["fix_perms", "mode_xlate"],
          unwind=4, unwindset=["main.0:129", "main.1:129", "main.2:129", "mode_xlate.0:11"],
-         backends=["default", "kissat"], bound="x"),
+         backends=["default", "kissat"], bound="every 128-byte inode, descriptor open or not"),
     dict(name="xtime", src="xtime.c", funcs=["__encode_extra_time"],
-         configs=xt(), unwind=4, unwindset=MU,
-         backends=["default", "kissat"], bound="x"),
+         configs=xt(), unwind=4, unwindset=MU, backends=["default", "kissat"],
+         bound="every second in [0, 2^31) (RANGE 1) / [-2^31, 2^34 - 2^31) (RANGE 2), every 160-byte inode image including "
+               "i_extra_isize; fields atime/ctime/mtime/crtime"),
 ]
-MANIFEST = {"text": "x", "note": "x"}
+MANIFEST = {
+    "text": "Differential kernels of the populate/extract path, each decided for all inputs within its bound: the stat -> "
+            "inode transfer of set_inode_extra (owner, group, 12 mode bits, three times, nothing else touched), the type "
+            "table, device-number encoding of do_mknod_internal read back the kernel's way, hole detection and byte "
+            "placement of copy_file_chunk against a model file, the inode -> host transfer of fix_perms, and the "
+            "timestamp macros against the kernel's 34-bit encoding. Tree walking, hard links, xattrs, symlinks, the "
+            "extent enumeration of sparse files, rdump recursion and image reproducibility are outside.",
+    "note": "Trusted: CBMC's C semantics, the recording stubs for library and libc callees, the harness's restatement of "
+            "the on-disk inode layout and of the kernel's timestamp/device decoding. xtime queries MODE=1 (all), "
+            "MODE=2 RANGE=2 and MODE=3 RANGE=2 fail on the unchanged tree: ext2fs_inode_xtime_set masks with 0xfffffff "
+            "(28 bits) on large inodes, ext2fs_inode_xtime_get reads the low word unsigned. fix_perms needs the "
+            "generated lib/ss/ss_err.h.",
+}
